@@ -393,6 +393,7 @@ fn extra_cases() -> &'static Vec<ExtraCase> {
         // texture names that collide under common 32-bit hashes / FxHash, or stand in a suffix relation
         let mut pairs: Vec<(String, String)> = vcore::collide::pairs().iter().map(|(_, a, b)| (a.clone(), b.clone())).collect();
         pairs.extend(vcore::sjis::suffix_pairs());
+    pairs.extend(vcore::sjis::case_pairs());
         for (i, (a, b)) in pairs.iter().enumerate() {
             if a.is_empty() || b.is_empty() {
                 continue;
@@ -405,6 +406,24 @@ fn extra_cases() -> &'static Vec<ExtraCase> {
                     _ => rt::cgfx_layouts(true),
                 };
                 v.push(ExtraCase { c, texs, l: layouts[(i * 5) % layouts.len()].clone() });
+            }
+        }
+        // dimensions at and beyond every field width a reader might assume (11-bit hardware
+        // register, 12 bits, 16 bits minus one): a small texture first, the large one behind it
+        for (k, (w, h)) in [(2048usize, 8usize), (8, 2048), (4096, 8), (8, 4096), (1024, 1024), (32768, 8)].into_iter().enumerate() {
+            for (fi, fmt) in [Fmt::L8, Fmt::Rgba4].into_iter().enumerate() {
+                if w * h > 1 << 20 && fi == 1 {
+                    continue;
+                }
+                for c in [Container::Ctpk, Container::Bch, Container::Cgfx] {
+                    let texs = vec![make_3ds(k, Fmt::Rgba8, SIZES[0], "small", false), make_3ds(k + 9, fmt, (w, h), "large", false)];
+                    let layouts = match c {
+                        Container::Ctpk => rt::ctpk_layouts(),
+                        Container::Bch => rt::bch_layouts(false),
+                        _ => rt::cgfx_layouts(true),
+                    };
+                    v.push(ExtraCase { c, texs, l: layouts[(k * 3 + fi) % layouts.len()].clone() });
+                }
             }
         }
         // same bytes, different formats (formats of equal bits per pixel), same and different sizes
